@@ -34,22 +34,11 @@ func main() {
 		r.Assume("obligation rule: a key owes a yield iff it stays in the collection from the iterator's creation, or it was inserted, lies beyond the NEXT key the iterator yields, and is not removed again (insertions between the last yielded key and the parked key may legitimately be missed)")
 		spin = vkit.NewSpinWatch(r, 30_000_000_000)
 		n := r.Scale(2600, 60000)
-		r.Cases("hist", n, runtime.GOMAXPROCS(0), func(c *vkit.Case) {
-			switch c.Index % 6 {
-			case 0:
-				run(c, tk.IntLessMap(true))
-			case 1:
-				run(c, tk.IntCmpMap(true))
-			case 2:
-				run(c, tk.IntReversedMap(true))
-			case 3:
-				run(c, tk.IntCoarseCmpMap(true))
-			case 4:
-				run(c, tk.IntLessSet(true))
-			default:
-				run(c, tk.IntCmpSetReversed(true))
-			}
-		})
+		r.Cases("hist", n, runtime.GOMAXPROCS(0), func(c *vkit.Case) { dispatch(c, c.Index%8) })
+		// Generation-counter wrap-around: exactly 2^8 and 2^16 structural modifications between a
+		// reseek of the iterator and its next call (a counter copy narrower than the tree's would
+		// make the iterator believe nothing changed).
+		r.Cases("wrap", r.Scale(48, 400), runtime.GOMAXPROCS(0), func(c *vkit.Case) { dispatch(c, c.Index%8) })
 		r.Floor("histories with a Next after a structural change around the parked key", r.Table("histories", "non-trivial"), int64(n/5))
 		for _, k := range []string{"parked node replaced", "parked node vanished", "levels changed", "tree emptied", "root replaced"} {
 			r.Floor("Next after: "+k, r.Table("next after", k), 5)
@@ -57,6 +46,27 @@ func main() {
 		r.Floor("obligations discharged (must-keys yielded)", r.Table("obligations", "must yielded"), 1000)
 		r.Floor("inserted keys promoted to obligations", r.Table("obligations", "inserted key promoted"), 200)
 	})
+}
+
+func dispatch(c *vkit.Case, k int) {
+	switch k {
+	case 0:
+		run(c, tk.IntLessMap(true))
+	case 1:
+		run(c, tk.IntCmpMap(true))
+	case 2:
+		run(c, tk.IntReversedMap(true))
+	case 3:
+		run(c, tk.IntCoarseCmpMap(true))
+	case 4:
+		run(c, tk.IntLessSet(true))
+	case 5:
+		run(c, tk.IntCmpSetReversed(true))
+	case 6:
+		run(c, tk.TokKeyMap(true))
+	default:
+		run(c, tk.TokKeyLessMap(true))
+	}
 }
 
 type liveIter[V any] struct {
@@ -546,6 +556,52 @@ func (d *drv[V]) mutate() {
 	d.compare(before)
 }
 
+// wrapScenario: force the iterator to re-seek (delete its parked key, call Next), then make exactly
+// 2^k structural modifications that also invalidate the slot it is parked on, then call Next.
+func (d *drv[V]) wrapScenario() {
+	for round := 0; round < 3 && !d.failed; round++ {
+		d.newIter()
+		if d.failed {
+			return
+		}
+		it := d.iters[len(d.iters)-1]
+		// advance a little
+		for i := d.rnd.Intn(4); i >= 0 && !d.failed && !it.done; i-- {
+			d.next(it)
+		}
+		pk, ok := d.parkedKey(it)
+		if !ok || it.done {
+			continue
+		}
+		d.del(pk) // the iterator loses its place: the next call re-seeks and records the generation
+		d.next(it)
+		if it.done || d.failed {
+			continue
+		}
+		pk2, ok := d.parkedKey(it)
+		if !ok {
+			continue
+		}
+		total := 1 << []int{8, 16}[d.c.Index/8%2]
+		// 1 modification that shifts the parked slot, 1 insert far away, then pairs of put+delete of
+		// a key outside every iterator's interest: total modifications == 2^k exactly.
+		d.del(pk2)
+		far := d.univ + 1000 + d.rnd.Intn(1000)
+		d.put(far)
+		other := d.univ + 5000
+		for n := 2; n < total; n += 2 {
+			d.put(other)
+			d.del(other)
+		}
+		d.r.Count("mutations", fmt.Sprintf("exactly 2^%d modifications between a reseek and the next call", []int{8, 16}[d.c.Index/8%2]), 1)
+		d.next(it)
+		for guard := 0; !it.done && !d.failed && guard < 8; guard++ {
+			d.next(it)
+		}
+		d.del(far)
+	}
+}
+
 func run[V any](c *vkit.Case, cfg tk.Config[int, V]) {
 	r := c.R
 	d := &drv[V]{c: c, r: r, rnd: c.Rand, cfg: cfg, model: tk.NewModel[int, V](cfg.Cmp)}
@@ -572,6 +628,12 @@ func run[V any](c *vkit.Case, cfg tk.Config[int, V]) {
 		for i := 0; i < fill; i++ {
 			d.put(d.rnd.Intn(d.univ))
 		}
+	}
+	if c.Group == "wrap" {
+		d.wrapScenario()
+		r.Count("histories", "total", 1)
+		r.Count("configs", cfg.Name, 1)
+		return
 	}
 	steps := d.rnd.Range(60, r.Scale(400, 1500))
 	if d.univ >= 3000 {
